@@ -158,13 +158,21 @@ def check(ctx):
     if fn is None:
         r1.bad(V(r1.id, "<anchor>", "missing:is_tauri_parameter_type", "anchor not found"))
     else:
-        out = []
-        collect_comparisons(fn.body, [], out)
-        for cx, var, litv in out:
-            if litv in ("tauri", "ipc"):
+        # the acceptance table is read from the type-checked body: every accepting path contributes (spelling class, accepted name), however
+        # the comparisons are written (== chains, matches!, a match on the identifier text, let-else, a helper)
+        from predtable import accept_paths, classify
+        mf = P.find("CommandParser::is_tauri_parameter_type")
+        aps = accept_paths(P, mf[0], "true") if mf else None
+        if aps is None:
+            r1.bad(V(r1.id, "CommandParser::is_tauri_parameter_type", "unclassified-context:too-many-paths", "the predicate is not a small decision list any more"))
+            aps = []
+        for a_ in aps:
+            klass, name_ = classify(a_)
+            if name_ in ("tauri", "ipc"):
                 continue
-            # the comparison's own conjuncts (e.g. `type_ident == "Channel" && matches!(arguments..)`) are part of the context
-            table.setdefault(classify_context(cx, None), set()).add(litv)
+            table.setdefault(klass, set())
+            if name_ is not None:
+                table[klass].add(name_)
         for klass, need in REQUIRED.items():
             have = table.get(klass, set())
             # bare names accepted unconditionally are also accepted with generics
@@ -215,23 +223,35 @@ def check(ctx):
               "Channel<T> and tauri::ipc::Channel<T> are recognised by the channel extractor and filtered from the value parameters; every typed "
               "identifier parameter whose type is a channel is pushed (no other guard)",
               "a channel that is both a value key and a channel key (or neither) gives invoke the wrong key set")
-    cs = S.fn("ChannelParser", "is_channel_segment")
-    if cs is None:
+    # the channel extractor's own predicate, read from the type-checked body: is_channel_segment where it exists as a function, otherwise the
+    # accepting (Some-returning) paths of extract_channel_message_type with whatever was folded into it
+    from predtable import accept_paths, len_range, positive
+    cands = [(f_, "true") for f_ in P.find("ChannelParser::is_channel_segment")] or [(f_, "some") for f_ in P.find("ChannelParser::extract_channel_message_type")]
+    if not cands:
         r2.bad(V(r2.id, "<anchor>", "missing:is_channel_segment", "anchor not found"))
-    else:
-        conds = [expr_text(e["cond"]) for e in walk_block(cs.body) if e.get("k") == "if" and e["cond"].get("k") != "letcond"]
-        allc = " ;; ".join(conds)
-        name_ok = bool(re.search(r'(!=|==) "Channel"', allc))
-        bare_ok = bool(re.search(r"\.len\(\) == 1", allc))
-        tauri_ok = bool(re.search(r'== "tauri"', allc))
+    for (cf, mode) in cands[:1]:
+        aps = accept_paths(P, cf, mode) or []
+        aps = [a_ for a_ in aps if not a_.get("opaque_value")]
+        named = []
+        bare_ok = tauri_ok = False
+        for a_ in aps:
+            segs = {k_: positive(v_) for k_, v_ in a_["seg"].items()}
+            is_channel = any(v_ == "Channel" for k_, v_ in segs.items() if k_ == "last" or (isinstance(k_, str) and k_.startswith("param:")) or isinstance(k_, int))
+            named.append(is_channel)
+            lo, hi = len_range(a_["len"])
+            if is_channel and (lo, hi) == (1, 1):
+                bare_ok = True
+            if is_channel and lo >= 2 and any(v_ == "tauri" for k_, v_ in segs.items() if k_ in (0, "first")):
+                tauri_ok = True
+        name_ok = bool(named) and all(named)
         if name_ok:
             r2.ok("channel extractor keys on the segment name Channel")
         else:
-            r2.bad(V(r2.id, "ChannelParser::is_channel_segment", "name-test", "the channel extractor does not test for the name Channel"))
+            r2.bad(V(r2.id, short_path(cf.id), "name-test", "the channel extractor does not test for the name Channel"))
         if bare_ok and tauri_ok:
             r2.ok("channel extractor accepts bare Channel and tauri::..::Channel")
         else:
-            r2.bad(V(r2.id, "ChannelParser::is_channel_segment", "spellings:bare=%s,tauri=%s" % (bare_ok, tauri_ok), "channel extractor spellings: bare=%s tauri-qualified=%s" % (bare_ok, tauri_ok)))
+            r2.bad(V(r2.id, short_path(cf.id), "spellings:bare=%s,tauri=%s" % (bare_ok, tauri_ok), "channel extractor spellings: bare=%s tauri-qualified=%s" % (bare_ok, tauri_ok)))
     if "Channel" in table.get("tauri::ipc::X", set()) and "Channel" in table.get("bare+generics", set()):
         r2.ok("the value-parameter filter drops Channel<T> and tauri::ipc::Channel<T>")
     else:
